@@ -14,6 +14,8 @@
 #include <iostream>
 #include <sstream>
 #include <string>
+#include <memory>
+#include <new>
 #include <vector>
 #include <map>
 #include <stdexcept>
@@ -63,6 +65,7 @@ static Val of_transfer(const ipr::Transfer& t) { Val v; v.id = most_derived(t); 
 static Val of_logogram(const ipr::Logogram& l) { Val v; v.id = most_derived(l); v.logogram = &l; return v; }
 
 struct Driver {
+   impl::Lexicon foreign;       // owns equally spelled Strings handed to the factories of `lex`
    impl::Lexicon lex;
    impl::Translation_unit unit { lex };
    std::vector<Val> results;
@@ -156,12 +159,45 @@ struct Driver {
    const ipr::Type& ty(const std::string& t) { return need(t, [](Val v) { return v.type; }); }
    const ipr::Expr& ex(const std::string& t) { return need(t, [](Val v) { return v.expr; }); }
    const ipr::Name& nm(const std::string& t) { return need(t, [](Val v) { return v.name; }); }
-   const ipr::String& st(const std::string& t) { return need(t, [](Val v) { return v.string; }); }
+   // "^%k": the String with the spelling of line k's String, owned by another Lexicon
+   const ipr::String& st(const std::string& t)
+   {
+      if (not t.empty() and t[0] == '^') return foreign.get_string(st(t.substr(1)).characters());
+      return need(t, [](Val v) { return v.string; });
+   }
    const ipr::Identifier& idn(const std::string& t) { return need(t, [](Val v) { return v.identifier; }); }
    const ipr::Product& pr(const std::string& t) { return need(t, [](Val v) { return v.product; }); }
    const ipr::Sum& sm(const std::string& t) { return need(t, [](Val v) { return v.sum; }); }
-   const ipr::Linkage& lk(const std::string& t) { return need(t, [](Val v) { return v.linkage; }); }
-   const ipr::Calling_convention& cv(const std::string& t) { return need(t, [](Val v) { return v.cc; }); }
+   // Linkage and Calling_convention are small copyable value classes.  "^%k" / "^^%k" / "^^^%k": a COPY of line k's value that lives
+   // in static storage / inside this Driver object (on main's stack) / on the heap — equal by value, at very different addresses
+   template<class V> struct Copies {
+      static constexpr std::size_t N = 2048;
+      alignas(V) unsigned char slots[N][sizeof(V)];
+      std::size_t used = 0;
+      const V& keep(const V& v) { if (used >= N) throw Bad("too many copies"); return *new (slots[used++]) V(v); }
+   };
+   Copies<ipr::Linkage> stack_links; Copies<ipr::Calling_convention> stack_ccs;
+   std::vector<std::unique_ptr<ipr::Linkage>> heap_links; std::vector<std::unique_ptr<ipr::Calling_convention>> heap_ccs;
+   template<class V> const V& copy_of(const V& v, std::size_t carets, Copies<V>& on_stack, std::vector<std::unique_ptr<V>>& on_heap)
+   {
+      static Copies<V> in_static;
+      if (carets == 1) return in_static.keep(v);
+      if (carets == 2) return on_stack.keep(v);
+      on_heap.push_back(std::make_unique<V>(v));
+      return *on_heap.back();
+   }
+   const ipr::Linkage& lk(const std::string& t)
+   {
+      auto n = t.find_first_not_of('^');
+      auto& v = need(t.substr(n), [](Val v) { return v.linkage; });
+      return n == 0 ? v : copy_of(v, n, stack_links, heap_links);
+   }
+   const ipr::Calling_convention& cv(const std::string& t)
+   {
+      auto n = t.find_first_not_of('^');
+      auto& v = need(t.substr(n), [](Val v) { return v.cc; });
+      return n == 0 ? v : copy_of(v, n, stack_ccs, heap_ccs);
+   }
    const ipr::Transfer& xf(const std::string& t) { return need(t, [](Val v) { return v.transfer; }); }
    const ipr::Expr_list& xl(const std::string& t) { return need(t, [](Val v) { return v.xlist; }); }
    const ipr::Template& tm(const std::string& t) { return need(t, [](Val v) { return v.tmpl; }); }
